@@ -293,7 +293,7 @@ def run_l1(ctx, case, exprs, checks):
         exprs.append(f'npy_load MBad {files_t} {o_t}')
         checks.append(('l1.npy.badmode', case, res['bad'], 'opens'))
     # a single name given as str is the one-element list; the mode strings are exact
-    if (keep is not None and len(keep) == 1) or len(exc) == 1:
+    if ((keep is not None and len(keep) == 1) or len(exc) == 1) and not is_big(case):
         ctx.count('l1:str-argument')
         for mode in ('time', 'memory'):
             r = impl_loader(p, keep, conv, exc, mode, count=True, as_str=True)
@@ -316,7 +316,7 @@ def run_l1(ctx, case, exprs, checks):
     p = write_files(specs, 'csv')
     res['csv'] = impl_loader(p, keep, conv, exc)
     # the same csv tables with other header conventions: comment string, separator, spacing
-    if all(f is not None for f in specs) and specs:
+    if all(f is not None for f in specs) and specs and not is_big(case):
         for hc, hs, style in (('#', None, 'tight'), ('%', None, 'wide'), ('#', ',', 'comma'), ('//', ';', 'semi')):
             p2 = write_files(specs, 'csv', header=(hc, hs, style))
             r2 = impl_loader(p2, keep, conv, exc, ldr_kw=dict(header_comment=hc, header_separator=hs))
@@ -1244,6 +1244,8 @@ def gen_l1(rng, ctx, big=None, wide=False, many=False):
     if bigvals:
         ctx.count('cells:not-float32-representable')
     sch = gen_schema(rng, all_f64=f64)
+    if big is not None:
+        sch = sch[:2]              # the list model of the row loop is quadratic in the rows
     if wide:                       # more than 5 fields
         extra = [n for n in range(len(NAMES)) if n not in [x[0] for x in sch]]
         sch += [[n, 3 if f64 else rng.randint(0, 3)] for n in rng.sample(extra, rng.randint(6, 8) - len(sch))]
